@@ -219,13 +219,18 @@ def Project(rules, queried, inline_of=None):
       by[name] = []
       order.append(name)
     by[name].append(r)
+  # aggregates and operators that the dialect library implements as predicates
+  # (ArgMin, ArgMax, ->, =, ...) are primitives of the specification
+  primitive = set(AGG_NAMES) | INFIX_OPS | BUILTINS | {'=', 'Arrow', 'IsNull'}
+  for name in primitive:
+    by.pop(name, None)
   keep = Reachable(by, queried)
-  if 'nil' in keep or any('nil' == n for n in keep):
-    pass
   proj = Projector(set(by) | {'nil'})
   preds = []
+  if 'nil' not in by:
+    preds.append(Pred('nil', []))      # the empty relation of recursion unfolding
   for name in order:
-    if name not in keep:
+    if name not in keep or name not in by:
       continue
     rules_ir = [proj.Rule(r) for r in by[name]]
     preds.append(Pred(name, rules_ir,
